@@ -119,6 +119,22 @@ def selftest_vector(vec):
     return any(k.startswith('C14/a/') or k.startswith('C14/b/') or k.startswith('C14/c/') for k, _, _ in fd.viol)
 
 
+def selftest_fingerprint():
+    """binding of clause f: the fingerprint must see an in-place change of Dataset.measurements made
+    through a VIEW, of an obs descriptor, of one list element and of a dof list"""
+    vec = {'form': 5, 'P': 2, 'dofopt': 2, 'dofv': [2, 3],
+           'blocks': [{'lab': [1, 1, 1], 'x': [[0, 3], [3, 0], [6, 3]]}, {'lab': [1, 2, 1, 2], 'x': [[0, 2], [2, 2], [4, 0], [0, 0]]}]}
+    for mutate in (lambda d, f: d[0].measurements.T.__isub__(1.0),
+                   lambda d, f: d[1].obs_descriptors['cond'].__setitem__(0, d[1].obs_descriptors['cond'][1]),
+                   lambda d, f: d[1].measurements.__setitem__((3, 1), 9.0),
+                   lambda d, f: f.__setitem__(1, 4)):
+        data, dof = N.build_input(vec, {'dtype': 'float64', 'dofcont': 'list', 'labkind': 'int', 'desccont': 'list'})
+        before = N.fingerprint((data, dof))
+        mutate(data, dof)
+        if N.fingerprint((data, dof)) == before:
+            raise MachineryError('binding self-test failed: fingerprint does not see a modified input')
+
+
 # ------------------------------------------------------------------ I -> S
 def _record_one(args):
     import warnings
@@ -144,7 +160,10 @@ def record_and_validate(ctx, n_inputs, totals):
                 kind, method = note[0], note[1]
                 totals[f'trace_note_{kind}'] = totals.get(f'trace_note_{kind}', 0) + 1
                 fc, dc = N.FORMCLASS[vec['form']], N.DOFCLASS[vec['dofopt']]
-                if kind == 'shape':
+                if kind == 'modified':
+                    ctx.violation(f'C14/f/{note[2]}_from_{est}/{fc}/input-modified',
+                                  f'{note[2]}_from_{est} modified its input', {'vector': vec, 'method': method})
+                elif kind == 'shape':
                     ctx.violation(f'C14/e/cov_from_{est}/{dc}/result-shape',
                                   f'cov_from_{est} does not return one matrix per element: got {note[2]}',
                                   {'vector': vec, 'method': method})
@@ -218,7 +237,8 @@ def run(ctx):
     thorough = ctx.tier == 'thorough'
     ctx.rule = ('TLC enumerates inputs of NoiseCov (exhaustively over label vectors = designs in every row '
                 'order, 0/1 or -1..1 raw data scaled by the lcm of the group sizes, dof options; plus seeded '
-                'random draws over conditions 2-4 x repetitions 1-4, channels 1-4, five input forms) and emits '
+                'random draws over conditions 1-4 x repetitions 1-4, channels 1-4, five input forms; size-1 corners: '
+                'single-condition Datasets, one repetition per condition with a passed dof, one channel) and emits '
                 'each with its exact Full; every vector is run through all applicable estimators x 4 methods x '
                 '(cov, prec) in one flavour; non-trivial = distinct vector whose cross-product is not all zero')
     ctx.assumptions = ['numpy linear algebra (eigvalsh, cond, matmul) is trusted for the relational clauses',
@@ -227,28 +247,36 @@ def run(ctx):
                        'recorded as unsupported, not demanded by the property',
                        'degenerate inputs (all residuals zero; a zero-variance channel for shrinkage_diag; '
                        'singular covariance for the precision clause) are excluded and counted',
-                       'natural dof >= 1 (observations > conditions) for every block']
+                       'natural dof >= 1 (observations > conditions) for every block when no dof is passed; '
+                       'one repetition per condition only with a passed dof']
+    selftest_fingerprint()
     runs = []
     dv = [2, 5]
     if thorough:
         runs.append(('ex_lists', dict(init='InitEx', cs=[2], maxrep=2, maxn=3, ps=[1, 2], vals='Vals01',
                                       forms=[2, 3], dofopts=[0, 1, 2], dofvals=dv)))
-        runs.append(('ex_dslist', dict(init='InitEx', cs=[2], maxrep=2, maxn=3, ps=[1], vals='Vals01',
+        runs.append(('ex_dslist', dict(init='InitEx', cs=[1, 2], maxrep=2, maxn=3, ps=[1], vals='Vals01',
                                        forms=[5], dofopts=[0, 2], dofvals=dv)))
-        runs.append(('ex_single_pm1', dict(init='InitEx', cs=[2, 3, 4], maxrep=4, maxn=5, ps=[1], vals='ValsPM1',
+        runs.append(('ex_single_pm1', dict(init='InitEx', cs=[1, 2, 3, 4], maxrep=4, maxn=5, ps=[1], vals='ValsPM1',
                                            forms=[1, 4], dofopts=[0], dofvals=[3])))
-        runs.append(('ex_single', dict(init='InitEx', cs=[2, 3], maxrep=3, maxn=4, ps=[2], vals='Vals01',
+        runs.append(('ex_single', dict(init='InitEx', cs=[1, 2, 3], maxrep=3, maxn=4, ps=[2], vals='Vals01',
                                        forms=[1, 4], dofopts=[0, 1], dofvals=[3])))
-        runs.append(('rnd', dict(init='InitRnd', cs=[2, 3, 4], maxrep=4, maxn=16, ps=[1, 2, 3, 4], vals='ValsPM2',
+        runs.append(('ex_corner', dict(init='InitEx', cs=[1, 2, 3], maxrep=1, maxn=3, ps=[1, 2], vals='ValsPM1',
+                                       forms=[4], dofopts=[0, 1], dofvals=[1, 3])))
+        runs.append(('rnd', dict(init='InitRnd', cs=[1, 2, 3, 4], maxrep=4, maxn=16, ps=[1, 2, 3, 4], vals='ValsPM2',
                                  forms=[1, 2, 3, 4, 5], dofopts=[0, 1, 2], dofvals=[1, 2, 3, 5, 7, 11], ndraw=300)))
-        runs.append(('rnd3', dict(init='InitRnd', cs=[2, 3, 4], maxrep=4, maxn=12, ps=[2, 3, 4], vals='ValsPM3',
+        runs.append(('rnd3', dict(init='InitRnd', cs=[1, 2, 3, 4], maxrep=4, maxn=12, ps=[2, 3, 4], vals='ValsPM3',
                                   forms=[2, 3, 5], dofopts=[0, 2], dofvals=[1, 4, 9], klist=3, ndraw=60)))
     else:
         runs.append(('ex_lists', dict(init='InitEx', cs=[2], maxrep=2, maxn=3, ps=[1], vals='Vals01',
                                       forms=[2, 3], dofopts=[0, 1, 2], dofvals=dv)))
-        runs.append(('ex_single', dict(init='InitEx', cs=[2, 3], maxrep=3, maxn=4, ps=[2], vals='Vals01',
+        runs.append(('ex_single', dict(init='InitEx', cs=[1, 2, 3], maxrep=3, maxn=4, ps=[2], vals='Vals01',
                                        forms=[1, 4], dofopts=[0], dofvals=[3])))
-        runs.append(('rnd', dict(init='InitRnd', cs=[2, 3, 4], maxrep=4, maxn=16, ps=[1, 2, 3, 4], vals='ValsPM2',
+        # size-1 corners: Datasets with a single condition (all rows one label), and one repetition
+        # per condition (N = C; admissible only with a passed dof), one and two channels
+        runs.append(('ex_corner', dict(init='InitEx', cs=[1, 2, 3], maxrep=1, maxn=3, ps=[1, 2], vals='Vals01',
+                                       forms=[4], dofopts=[0, 1], dofvals=[3])))
+        runs.append(('rnd', dict(init='InitRnd', cs=[1, 2, 3, 4], maxrep=4, maxn=16, ps=[1, 2, 3, 4], vals='ValsPM2',
                                  forms=[1, 2, 3, 4, 5], dofopts=[0, 1, 2], dofvals=[1, 2, 3, 5, 7, 11], ndraw=30)))
     ctx.exhaustive = False   # exhaustive over the small grids only; the larger space is sampled
     totals = {}
@@ -279,7 +307,11 @@ def run(ctx):
     ctx.extra['vectors_replayed'] = nvec
     # vacuity guards
     for k, floor in [('exact_compared', 1000), ('shrink_checked', 1000), ('lambda_interior', 100), ('pd_checked', 100),
-                     ('prec_checked', 1000), ('d_pairs_compared', 100), ('prec_skipped_singular', 1)]:
+                     ('prec_checked', 1000), ('d_pairs_compared', 100), ('prec_skipped_singular', 1),
+                     ('single_condition_dataset_calls_measurements', 100),
+                     ('single_condition_dataset_calls_unbalanced', 100),
+                     ('one_repetition_dataset_calls_measurements', 50),
+                     ('one_repetition_dataset_calls_unbalanced', 50)]:
         if totals.get(k, 0) < floor:
             raise MachineryError(f'vacuous run: {k} = {totals.get(k, 0)} < {floor}')
     # implementation -> specification
